@@ -285,32 +285,35 @@ pub fn extract_game_parts_from_name(game: &str) -> GameNameParsed {
         .filter(|w| !w.trim_matches('-').is_empty())
         // Combine numbers that are seperated by dashes
         // e.g. 44-45 = 4445
-        // Panics if there is text after number with trailing dash (44-text)
-        .filter_map(|w| {
+        // If text follows a number with a trailing dash (3-D) the number is a word of its own
+        .flat_map(|w| {
+            let mut words = Vec::with_capacity(2);
+
             if number_accumulator.is_some() {
                 if let Some(maybe_number) = w.strip_suffix('-') {
                     if maybe_number.chars().all(|c| c.is_ascii_digit()) {
                         number_accumulator.as_mut().unwrap().push_str(maybe_number);
-                        return None;
-                    } else {
-                        panic!("Text after number-");
+                        return words;
                     }
                 } else if w.chars().all(|c| c.is_ascii_digit()) {
-                    let mut accumulator = number_accumulator.as_ref().unwrap().clone();
-                    number_accumulator = None;
+                    let mut accumulator = number_accumulator.take().unwrap();
                     accumulator.push_str(&w);
-                    return Some(accumulator);
-                } else {
-                    panic!("Text after number-");
+                    words.push(accumulator);
+                    return words;
                 }
-            } else if let Some(maybe_number) = w.strip_suffix('-') {
+
+                words.push(number_accumulator.take().unwrap());
+            }
+
+            if let Some(maybe_number) = w.strip_suffix('-') {
                 if maybe_number.chars().all(|c| c.is_ascii_digit()) {
                     number_accumulator = Some(maybe_number.to_string());
-                    return None;
+                    return words;
                 }
             }
 
-            Some(w)
+            words.push(w);
+            words
         })
         .collect();
 
